@@ -1,5 +1,5 @@
 //! C12 harness, fifth table: relinearisation, cswap, and the poulpy-ckks queries that are built from
-//! modelled core operations (formula equality only for CKKS; reference back ends).
+//! modelled core operations (reference back ends; the CKKS calls themselves run in scratch_cases7.rs).
 pub trait CkksTb2: poulpy_hal::layouts::Backend {
     fn tb(_m: &poulpy_hal::layouts::Module<Self>, _op: &str, _kv: &crate::cmd_scratch::Kv) -> Option<usize> {
         None
@@ -122,8 +122,11 @@ macro_rules! backend_cases5 {
                     Some(t) => t,
                     None => return crate::scratch_cases6::$modname::case(op, kv),
                 };
-                if kv.g("tbonly") == 1 || op.starts_with("ckks_") {
+                if kv.g("tbonly") == 1 {
                     return Some(format!("tb={tb}"));
+                }
+                if op.starts_with("ckks_") {
+                    return Some(<BE as crate::scratch_cases7::CkksRun>::run(op, kv, tb).unwrap_or_else(|| format!("tb={tb}")));
                 }
                 let n = module.n();
                 let (size, rank, b2k) = (kv.g("size"), kv.g("rank"), kv.g("b2k").max(1));
